@@ -20,6 +20,59 @@ pub struct ConIterOfVec<T: Send + Sync> {
     counter: AtomicCounter,
 }
 
+/// Iterator moving out the `len` elements starting at `ptr`;
+/// the elements which are not yielded are dropped together with the iterator.
+pub(crate) struct TakenSlice<T> {
+    ptr: *mut T,
+    idx: usize,
+    len: usize,
+}
+
+impl<T> TakenSlice<T> {
+    /// # Safety
+    ///
+    /// `ptr` must point to `len` consecutive initialized elements which are exclusively owned by the new iterator.
+    pub(crate) unsafe fn new(ptr: *mut T, len: usize) -> Self {
+        Self { ptr, idx: 0, len }
+    }
+}
+
+impl<T> Iterator for TakenSlice<T> {
+    type Item = T;
+
+    #[inline]
+    fn next(&mut self) -> Option<T> {
+        match self.idx < self.len {
+            true => {
+                let value = unsafe { self.ptr.add(self.idx).read() };
+                self.idx += 1;
+                Some(value)
+            }
+            false => None,
+        }
+    }
+
+    #[inline]
+    fn size_hint(&self) -> (usize, Option<usize>) {
+        let len = self.len - self.idx;
+        (len, Some(len))
+    }
+}
+
+impl<T> ExactSizeIterator for TakenSlice<T> {}
+
+impl<T> Drop for TakenSlice<T> {
+    fn drop(&mut self) {
+        for value in self {
+            drop(value);
+        }
+    }
+}
+
+unsafe impl<T: Send> Send for TakenSlice<T> {}
+
+unsafe impl<T: Sync> Sync for TakenSlice<T> {}
+
 impl<T: Send + Sync> Drop for ConIterOfVec<T> {
     fn drop(&mut self) {
         let current = self.counter().current();
@@ -66,8 +119,7 @@ impl<T: Send + Sync> ConIterOfVec<T> {
         let len = end_idx - begin_idx;
 
         let ptr = vec.as_mut_ptr().add(begin_idx);
-        let vec = Vec::from_raw_parts(ptr, len, 0);
-        vec.into_iter()
+        TakenSlice::new(ptr, len)
     }
 
     unsafe fn split_off_right(&self, left_len: usize) -> Vec<T> {
